@@ -83,6 +83,8 @@ public:
                 p.add("hsend", {(s64)r.below(3), (s64)v});
             } else if (x < 20) {
                 p.add("rcmd", {(s64)r.below(3), 0, path, mirror});
+            } else if (r.chance(1, 40)) {
+                p.add("reset", {}); // Reset() in mid-history: every register returns to its reset value, the window to channel 0
             } else if (x < 20 + w_chan) {
                 p.add("w", {0x1BE, (s64)r.below(8), path, mirror});
             } else {
@@ -271,6 +273,19 @@ public:
                 if (m.mask[off] && (got & m.mask[off]) != (m.val[off] & m.mask[off]))
                     out.violate("C12.readback", fmt("step %zu: offset 0x%03x reads 0x%04x (path %lld), documented fields (mask 0x%04x) must read 0x%04x",
                                                     si, off, got, (long long)s.arg(2), m.mask[off], (u16)(m.val[off] & m.mask[off])));
+            } else if (s.op == "reset") {
+                out.faults_configured["reset"]++;
+                out.faults_fired["reset"]++;
+                if (m.active != 0)
+                    out.probes["reset_with_channel_selected"]++;
+                b.reset();
+                m = MmioModel();
+                base = 0x8000;
+                m.set(0x11E, base, 0xFFFF);
+                m.set(0x1BE, 0, 0x0007);
+                u16 got = t.MMIORead(0x1BE);
+                if (got != 0)
+                    out.violate("C12.channel-window", fmt("step %zu: after Reset the channel select register reads %u", si, got));
             } else if (s.op == "hsend") {
                 std::vector<u16> before;
                 snapshot(before);
